@@ -82,7 +82,7 @@ class EnvScenario(StateScenario):
 
     def gen_cfg(self, rng):
         return schema.GenCfg(rng, kinds=[k for k in KINDS if rng.random() < 0.6] or ["int", "string"], depth=rng.choice([0, 1, 2, 3]),
-                             width=rng.randint(2, 5), p_validator=0.0, p_required=0.0, p_configtype=0.0, p_list_schema=0.0,
+                             width=rng.randint(2, 5), p_validator=rng.choice([0.0, 0.3, 0.5]), p_required=0.0, p_configtype=0.0, p_list_schema=0.0,
                              p_dynamic=0.0, filename_fs=False, virtual=False, p_sub=rng.choice([0.3, 0.5]))
 
     def weights(self, rng):
